@@ -171,6 +171,25 @@ def selecting_exits(body):
     return out
 
 
+INJECTIVE_METHODS = {"clone", "as_str", "to_string", "as_ref", "borrow", "to_owned", "deref", "as_path", "to_path_buf", "cmp", "partial_cmp",
+                     "then", "then_with", "as_os_str", "as_bytes", "iter", "into_iter", "copied", "cloned", "unwrap", "as_deref", "reverse", "order"}
+
+
+def lossy_sort_key(call):
+    """method calls inside the key/comparator closure of sort_by*/sort_by_key that can map distinct elements to equal keys
+    (to_lowercase, to_string_lossy, len, file_name …): equal keys leave the incoming - undetermined - order in place"""
+    if call["method"] in ("sort", "sort_unstable"):
+        return []
+    out = []
+    for a in call["args"]:
+        for n in S.walk(a):
+            if n["k"] == "MethodCall" and n["method"] not in INJECTIVE_METHODS:
+                out.append(n["method"])
+            elif n["k"] == "Call" and S.callee_name(n) not in ("Reverse", "Some"):
+                out.append(S.callee_name(n) or "?")
+    return out
+
+
 def next_use_is_sort(cx, rel, local_stmt, name):
     """after `let name = …;` the next statement mentioning `name` in the same block is name.sort*()"""
     par = cx.parents(rel)
@@ -185,6 +204,9 @@ def next_use_is_sort(cx, rel, local_stmt, name):
         if name in S.idents(s):
             e = s.get("expr") if s["k"] == "ExprStmt" else None
             if e and e["k"] == "MethodCall" and e["method"] in SORTS and S.is_path(e["recv"], name):
+                lossy = lossy_sort_key(e)
+                if lossy:
+                    return False, f"{name}.{e['method']}(..) orders by a key that is not injective ({', '.join(sorted(set(lossy)))}): ties keep the incoming order"
                 return True, f"{name}.{e['method']}() at line {e['sp'][0]}"
             return False, f"`{name}` is used at line {s['sp'][0]} before being sorted"
     return False, f"`{name}` is never sorted"
@@ -458,12 +480,18 @@ def r13_2(run, cx):
             if mc["k"] == "MethodCall" and S.is_path(mc["recv"]):
                 pushed.add(mc["recv"]["segs"][0])
         sorted_ = set()
+        lossy = {}
         for mc in S.calls(fn_.body, *SORTS):
             if mc["k"] == "MethodCall" and S.is_path(mc["recv"]):
-                sorted_.add(mc["recv"]["segs"][0])
+                lk = lossy_sort_key(mc)
+                if lk:
+                    lossy[mc["recv"]["segs"][0]] = sorted(set(lk))
+                else:
+                    sorted_.add(mc["recv"]["segs"][0])
         ok = bool(pushed) and pushed <= sorted_
         run.ob("R13.2", f"{fn_.qual}|read_dir", ok, site(rel, [c["line"]]),
-               f"vectors filled from the listing: {sorted(pushed)}; sorted: {sorted(sorted_)}",
+               f"vectors filled from the listing: {sorted(pushed)}; totally ordered by a sort: {sorted(sorted_)}" +
+               (f"; sorted by a non-injective key (ties keep enumeration order): {lossy}" if lossy else ""),
                witness="directory enumeration order is file-system dependent")
     run.floor("read_dir call sites", n, 1)
 
